@@ -32,6 +32,7 @@ type Solver struct {
 	Parallel int
 	Cross    bool // re-check every discharged obligation with a second solver
 	sem      chan struct{}
+	sem2     chan struct{} // concurrent solver processes in portfolio races
 	mu       sync.Mutex
 	Stats    map[string]*solverStat
 	DumpDir  string
@@ -44,7 +45,7 @@ type solverStat struct {
 }
 
 func newSolver(timeout, par int) *Solver {
-	return &Solver{Timeout: timeout, Parallel: par, sem: make(chan struct{}, par), Stats: map[string]*solverStat{}}
+	return &Solver{Timeout: timeout, Parallel: par, sem: make(chan struct{}, par), sem2: make(chan struct{}, 24), Stats: map[string]*solverStat{}}
 }
 
 func (c *Ctx) queryText(o Obl, getModel bool, vals []string) string {
@@ -72,14 +73,67 @@ func (c *Ctx) queryText(o Obl, getModel bool, vals []string) string {
 var solverCmds = map[string]func(timeout int) []string{
 	"z3-new": func(t int) []string { return []string{"z3-new", fmt.Sprintf("-T:%d", t), "-in"} },
 	"z3":     func(t int) []string { return []string{"z3", fmt.Sprintf("-T:%d", t), "-in"} },
+	"z3-euf": func(t int) []string { return []string{"z3-new", fmt.Sprintf("-T:%d", t), "sat.euf=true", "-in"} },
 	"cvc5": func(t int) []string {
 		return []string{"cvc5", "--lang=smt2", fmt.Sprintf("--tlimit=%d", t*1000), "--enum-inst", "--produce-models"}
 	},
 }
 
 func (sv *Solver) run(name, query string, timeout int) (status, out string, ms int64) {
+	return sv.runCtx(context.Background(), name, query, timeout)
+}
+
+type raceJob struct {
+	solver string
+	query  string
+	full   bool // the real query (a `sat` answer counts); false: a strengthened variant (only `unsat` counts)
+}
+
+// race runs the jobs concurrently and returns the first definitive answer (cancelling the rest).
+func (sv *Solver) race(jobs []raceJob, timeout int) (status, solver, out string, ms int64) {
+	ctx, cancel := context.WithCancel(context.Background())
+	defer cancel()
+	type res struct {
+		j       raceJob
+		st, out string
+		ms      int64
+	}
+	ch := make(chan res, len(jobs))
+	for _, j := range jobs {
+		j := j
+		go func() {
+			sv.sem2 <- struct{}{}
+			defer func() { <-sv.sem2 }()
+			if ctx.Err() != nil {
+				ch <- res{j, "cancelled", "", 0}
+				return
+			}
+			st, o, m := sv.runCtx(ctx, j.solver, j.query, timeout)
+			ch <- res{j, st, o, m}
+		}()
+	}
+	status = "unknown"
+	for range jobs {
+		r := <-ch
+		if r.ms > ms {
+			ms = r.ms
+		}
+		if r.st == "unsat" || (r.st == "sat" && r.j.full) {
+			return r.st, r.j.solver, r.out, r.ms
+		}
+		if r.j.full && r.j.solver == "z3-new" && (r.st == "timeout" || r.st == "unknown") {
+			status, solver, out = r.st, r.j.solver, r.out
+		}
+	}
+	if solver == "" {
+		solver = "portfolio"
+	}
+	return
+}
+
+func (sv *Solver) runCtx(parent context.Context, name, query string, timeout int) (status, out string, ms int64) {
 	args := solverCmds[name](timeout)
-	ctx, cancel := context.WithTimeout(context.Background(), time.Duration(timeout+3)*time.Second)
+	ctx, cancel := context.WithTimeout(parent, time.Duration(timeout+3)*time.Second)
 	defer cancel()
 	cmd := exec.CommandContext(ctx, args[0], args[1:]...)
 	query = strings.ReplaceAll(query, "@fn:ctabf_", "ctaba_")
@@ -101,7 +155,9 @@ func (sv *Solver) run(name, query string, timeout int) (status, out string, ms i
 	case "timeout":
 		status = "timeout"
 	default:
-		if ctx.Err() != nil || strings.Contains(out, "timeout") || strings.Contains(out, "interrupted") {
+		if parent.Err() != nil {
+			status = "cancelled"
+		} else if ctx.Err() != nil || strings.Contains(out, "timeout") || strings.Contains(out, "interrupted") {
 			status = "timeout"
 		} else {
 			status = "error"
@@ -158,18 +214,52 @@ func (sv *Solver) solveOne(c *Ctx, o Obl, timeout int, wantModel bool) OblResult
 		r.Status, r.Solver = "unsat", "trivial"
 		return r
 	}
+	// Stage A: z3-new alone for a short time (almost every obligation is decided here in milliseconds). For obligations
+	// with quantified contracts the quantifier-free strengthening (quant.go) is tried first: unsat there implies unsat.
+	qf := c.qfQuery(o)
 	q := c.queryText(o, false, nil)
-	order := []string{"z3-new", "cvc5", "z3"}
-	for i, s := range order {
-		st, out, ms := sv.run(s, q, timeout)
+	if sv.DumpDir != "" && qf != "" {
+		os.MkdirAll(sv.DumpDir, 0o755)
+		os.WriteFile(fmt.Sprintf("%s/QF_%s.smt2", sv.DumpDir, sanitizeSym(o.Name)), []byte(qf), 0o644)
+	}
+	short := 2
+	if timeout < short {
+		short = timeout
+	}
+	done := false
+	if qf != "" {
+		st, out, ms := sv.run("z3-new", qf, short)
 		r.Ms += ms
+		if st == "unsat" {
+			r.Status, r.Solver, r.Output, done = "unsat", "z3-new", "qf-instantiated: "+firstLines(out, 1), true
+		}
+	} else {
+		st, out, ms := sv.run("z3-new", q, short)
+		r.Ms += ms
+		r.Status, r.Solver, r.Output = st, "z3-new", firstLines(out, 3)
 		if st == "unsat" || st == "sat" {
-			r.Status, r.Solver, r.Output = st, s, firstLines(out, 3)
-			break
+			done = true
 		}
-		if i == 0 {
-			r.Status, r.Solver, r.Output = st, s, firstLines(out, 3)
+	}
+	// Stage B: race the whole portfolio (z3 5.1 default and sat.euf cores, z3 4.8.12, cvc5) on the real query and on
+	// the strengthened one; the first definitive answer wins.
+	if !done {
+		var jobs []raceJob
+		if qf != "" {
+			for _, sn := range []string{"cvc5", "z3-euf", "z3", "z3-new"} {
+				jobs = append(jobs, raceJob{sn, qf, false})
+			}
 		}
+		for _, sn := range []string{"z3-new", "z3-euf", "cvc5", "z3"} {
+			jobs = append(jobs, raceJob{sn, q, true})
+		}
+		st, sn, out, ms := sv.race(jobs, timeout)
+		r.Ms += ms
+		r.Status, r.Solver, r.Output = st, sn, firstLines(out, 3)
+	}
+	usedQ := q
+	if qf != "" && r.Status == "unsat" {
+		usedQ = qf // cross-check the same formulation that was decided, then the real one
 	}
 	if r.Status == "sat" && wantModel {
 		terms := c.inputTerms()
@@ -186,12 +276,21 @@ func (sv *Solver) solveOne(c *Ctx, o Obl, timeout int, wantModel bool) OblResult
 		if r.Solver == "z3" {
 			other = "z3-new"
 		}
-		st, _, _ := sv.run(other, q, timeout)
-		if st != "unsat" && st != "sat" {
-			st2, _, _ := sv.run("cvc5", q, timeout)
-			if st2 == "unsat" || st2 == "sat" {
-				st, other = st2, "cvc5"
+		if r.Solver == "cvc5" {
+			other = "z3"
+		}
+		var cj []raceJob
+		for _, sn := range []string{"z3-new", "z3-euf", "z3", "cvc5"} {
+			if sn != r.Solver && !(r.Solver == "z3-new" && sn == "z3-euf") && !(r.Solver == "z3-euf" && sn == "z3-new") {
+				cj = append(cj, raceJob{sn, usedQ, true})
+				if usedQ != q {
+					cj = append(cj, raceJob{sn, q, true})
+				}
 			}
+		}
+		st, sn, _, _ := sv.race(cj, timeout)
+		if sn != "" && sn != "portfolio" {
+			other = sn
 		}
 		r.Cross = other + ":" + st
 	}
